@@ -968,7 +968,9 @@ class _Visitor(ast.NodeVisitor):
         self.ctx = ctx
 
     def generic_visit(self, node: ast.AST) -> None:
-        raise NotImplementedError(f"no visitor implemented for {node!r}")
+        # Unsupported kind of expression; value_from_ast() reports it as an
+        # invalid annotation.
+        return None
 
     def visit_Name(self, node: ast.Name) -> Value:
         return self.ctx.get_name(node)
